@@ -63,6 +63,14 @@ def state_case(rng):
     nb = rng.choice([0, 1, 1, 2, 3])
     ins = rng.sample([c for c in gen.LOWER if c not in "s"], nb)
     outs = rng.sample(list("PFDEMW") + [c for c in gen.UPPER if c not in "PFDEMW"], nb)
+    for k in range(nb):
+        # letters outside ASCII: an upper-case output prefix is any char::is_uppercase, e.g. E-acute
+        if rng.random() < 0.15 and "\u00c9" not in outs:
+            outs[k] = "\u00c9"
+        if rng.random() < 0.15:
+            c = rng.choice(["\u00e9", "\u00fc", "\u03b1"])
+            if c not in ins:
+                ins[k] = c
     st = ["pc = 0;", "Stat = STAT_AOK;"]
     inject = []
     expect_banks = {}
